@@ -1,62 +1,90 @@
 /-
-  Lemmas for C17: Nelder-Mead bookkeeping — `f_val` always holds the (negated, bounded) objective
-  at the current vertices, and the simplex keeps its `n+1` rows. Pure list reasoning: valid for
-  every scalar type, every objective, every bound list (no field axioms needed).
+  Lemmas for C17: Nelder-Mead.
+  Part 1 (any scalar type): `f_val` always holds the (negated, bounded) objective at the current
+  vertices, the simplex keeps its `n+1` rows, `sort_ind` keeps `n+1` entries that are valid row
+  numbers.
+  Part 2 (ordered field): the value at `sort_ind[0]` never gets worse, `argsort` puts the first
+  minimiser first, and `sort_ind` stays a duplicate-free list sorting `f_val` through every branch
+  (insertion rule and the repaired stable shrink re-sort; the pre-repair rule is refuted by the
+  witness `sort_ind_not_a_permutation_old_rule` in Properties/C17.lean).
 -/
+import Mathlib.Algebra.Order.Field.Basic
+import Mathlib.Tactic.Linarith
+import Mathlib.Tactic.Ring
+import Mathlib.Data.List.Perm.Subperm
+import Mathlib.Data.List.Nodup
+import Mathlib.Data.List.Range
 import QEModel.C17
 namespace QE.C17
 set_option linter.unusedSectionVars false
 
-section
+theorem getD_map_of_lt {β γ : Type} (F : β → γ) (l : List β) (b : Nat) (d : γ) (d' : β)
+    (hb : b < l.length) : (l.map F).getD b d = F (l.getD b d') := by
+  simp [List.getD_eq_getElem?_getD, List.getElem?_eq_getElem hb]
+
+theorem getD_set_ne' {β : Type} (l : List β) (i j : Nat) (a d : β) (h : i ≠ j) :
+    (l.set i a).getD j d = l.getD j d := by
+  simp [List.getD_eq_getElem?_getD, List.getElem?_set_ne h]
+
+theorem getD_set_self' {β : Type} (l : List β) (i : Nat) (a d : β) (h : i < l.length) :
+    (l.set i a).getD i d = a := by
+  simp [List.getD_eq_getElem?_getD, h]
+
+theorem getD_mem {l : List Nat} {i : Nat} (h : i < l.length) : l.getD i 0 ∈ l := by
+  simp [List.getD_eq_getElem?_getD, List.getElem?_eq_getElem h]
+
+section generic
 variable {α : Type} [Zero α] [One α] [Add α] [Sub α] [Mul α] [Div α] [Neg α]
   [LT α] [LE α] [DecidableLT α] [DecidableLE α] [BEq α]
 
-/-- the bookkeeping invariant: `f_val[i] = _neg_bounded_fun(vertices[i])` for every row -/
+/-! ### `f_val[i] = _neg_bounded_fun(vertices[i])` -/
+
 def NMOk (f : List α → α) (P : NMP α) (bounds : List (α × α)) (N : Nat) (s : NM α) : Prop :=
   s.fval = s.verts.map (negF f P.pinf bounds) ∧ s.verts.length = N
 
-theorem shrink_fold_ok (F : List α → α) (g : List (List α) → Nat → List α) :
+theorem shrinkStep_ok (F : List α → α) (σ : α) (best : Nat) (vf : List (List α) × List α) (i : Nat)
+    (h : vf.2 = vf.1.map F) :
+    (shrinkStep F σ best vf i).2 = (shrinkStep F σ best vf i).1.map F ∧
+    (shrinkStep F σ best vf i).1.length = vf.1.length := by
+  unfold shrinkStep
+  simp [h, List.map_set]
+
+theorem shrinkFold_ok (F : List α → α) (σ : α) (best : Nat) :
     ∀ (idx : List Nat) (vf : List (List α) × List α), vf.2 = vf.1.map F →
-      let r := idx.foldl (fun (vf : List (List α) × List α) i =>
-        (vf.1.set i (g vf.1 i), vf.2.set i (F (g vf.1 i)))) vf
-      r.2 = r.1.map F ∧ r.1.length = vf.1.length := by
+      (idx.foldl (shrinkStep F σ best) vf).2 = (idx.foldl (shrinkStep F σ best) vf).1.map F ∧
+      (idx.foldl (shrinkStep F σ best) vf).1.length = vf.1.length := by
   intro idx
   induction idx with
   | nil => intro vf h; exact ⟨h, rfl⟩
   | cons i rest ih =>
     intro vf h
     simp only [List.foldl_cons]
-    have := ih (vf.1.set i (g vf.1 i), vf.2.set i (F (g vf.1 i))) (by simp [h, List.map_set])
-    simp only at this
-    exact ⟨this.1, by rw [this.2]; simp⟩
+    have h1 := shrinkStep_ok F σ best vf i h
+    have := ih _ h1.1
+    exact ⟨this.1, by rw [this.2, h1.2]⟩
+
+theorem nmReplace_ok (f : List α → α) (P : NMP α) (bounds : List (α × α)) (N : Nat) (s : NM α)
+    (v : List α) (fac : α) (h : NMOk f P bounds N s) : NMOk f P bounds N (nmReplace f P bounds s v fac) := by
+  obtain ⟨h1, h2⟩ := h
+  exact ⟨by simp [nmReplace, h1, List.map_set], by simp [nmReplace, h2]⟩
+
+theorem nmShrinkWith_ok (resort : List α → List Nat → List Nat) (f : List α → α) (P : NMP α)
+    (bounds : List (α × α)) (N : Nat) (s : NM α)
+    (h : NMOk f P bounds N s) : NMOk f P bounds N (nmShrinkWith resort f P bounds s) := by
+  obtain ⟨h1, h2⟩ := h
+  have := shrinkFold_ok (negF f P.pinf bounds) P.σ (s.sind.getD 0 0) (s.sind.drop 1) (s.verts, s.fval) h1
+  exact ⟨this.1, by rw [← h2]; exact this.2⟩
+
+theorem nmShrink_ok (f : List α → α) (P : NMP α) (bounds : List (α × α)) (N : Nat) (s : NM α)
+    (h : NMOk f P bounds N s) : NMOk f P bounds N (nmShrink f P bounds s) :=
+  nmShrinkWith_ok _ f P bounds N s h
 
 theorem nmIter_ok (f : List α → α) (P : NMP α) (bounds : List (α × α)) (N : Nat) (s : NM α)
     (h : NMOk f P bounds N s) : NMOk f P bounds N (nmIter f P bounds s) := by
-  obtain ⟨h1, h2⟩ := h
   unfold nmIter
-  simp only
   split
-  · next v fac _ => exact ⟨by simp [h1, List.map_set], by simp [h2]⟩
-  · have := shrink_fold_ok (negF f P.pinf bounds)
-      (fun vs i => vadd (vs.getD (s.sind.getD 0 0) [])
-        (smul P.σ (vsub (vs.getD i []) (vs.getD (s.sind.getD 0 0) []))))
-      (s.sind.drop 1) (s.verts, s.fval) h1
-    simp only at this
-    exact ⟨this.1, by rw [this.2]; exact h2⟩
-
-theorem nmLoop_ok (f : List α → α) (P : NMP α) (bounds : List (α × α)) (N maxIter : Nat) :
-    ∀ (fuel : Nat) (s : NM α), NMOk f P bounds N s →
-      NMOk f P bounds N (nmLoop f P bounds maxIter fuel s).1 := by
-  intro fuel
-  induction fuel with
-  | zero => intro s h; exact h
-  | succ fuel ih =>
-    intro s h
-    unfold nmLoop
-    simp only
-    split
-    · exact h
-    · exact ih _ (nmIter_ok f P bounds N s h)
+  · exact nmReplace_ok f P bounds N s _ _ h
+  · exact nmShrink_ok f P bounds N s h
 
 theorem nmInit_ok (f : List α → α) (P : NMP α) (bounds : List (α × α)) (verts : List (List α)) :
     NMOk f P bounds verts.length (nmInit f P bounds verts) := ⟨rfl, rfl⟩
@@ -65,9 +93,589 @@ theorem initSimplex_length (k105 zdelt : α) (x0 : List α) :
     (initSimplex k105 zdelt x0).length = x0.length + 1 := by
   simp [initSimplex]
 
-theorem getD_map_of_lt {β γ : Type} (F : β → γ) (l : List β) (b : Nat) (d : γ) (d' : β)
-    (hb : b < l.length) : (l.map F).getD b d = F (l.getD b d') := by
-  simp [List.getD_eq_getElem?_getD, List.getElem?_eq_getElem hb]
+/-! ### `sort_ind` keeps `n+1` valid row numbers -/
 
-end
+def SindOk (N : Nat) (s : NM α) : Prop := s.sind.length = N ∧ ∀ j ∈ s.sind, j < N
+
+theorem insIdx_length (vals : List α) (i : Nat) : ∀ l : List Nat, (insIdx vals i l).length = l.length + 1 := by
+  intro l
+  induction l with
+  | nil => simp [insIdx]
+  | cons j rest ih => unfold insIdx; split <;> simp [ih]
+
+theorem insIdx_mem (vals : List α) (i : Nat) : ∀ (l : List Nat) (k : Nat), k ∈ insIdx vals i l ↔ k = i ∨ k ∈ l := by
+  intro l
+  induction l with
+  | nil => intro k; simp [insIdx]
+  | cons j rest ih =>
+    intro k; unfold insIdx; split
+    · simp
+    · simp [ih]; tauto
+
+theorem argsortFold_spec (vals : List α) : ∀ (m : Nat) ,
+    ((List.range m).foldl (fun acc i => insIdx vals i acc) []).length = m ∧
+    ∀ k, k ∈ (List.range m).foldl (fun acc i => insIdx vals i acc) [] ↔ k < m := by
+  intro m
+  induction m with
+  | zero => simp
+  | succ m ih =>
+    rw [List.range_succ, List.foldl_append]
+    simp only [List.foldl_cons, List.foldl_nil]
+    refine ⟨by rw [insIdx_length, ih.1], fun k => ?_⟩
+    rw [insIdx_mem, ih.2]; omega
+
+theorem argsort_length (vals : List α) : (argsort vals).length = vals.length :=
+  (argsortFold_spec vals vals.length).1
+
+theorem argsort_mem (vals : List α) (k : Nat) : k ∈ argsort vals ↔ k < vals.length :=
+  (argsortFold_spec vals vals.length).2 k
+
+theorem reinsertAux_length (p : Nat → Bool) (w : Nat) : ∀ l : List Nat, (reinsertAux p w l).length = l.length := by
+  intro l
+  induction l with
+  | nil => rfl
+  | cons j rest ih => unfold reinsertAux; split <;> simp [ih]
+
+theorem reinsertAux_mem (p : Nat → Bool) (w : Nat) : ∀ (l : List Nat) (k : Nat), k ∈ reinsertAux p w l → k = w ∨ k ∈ l := by
+  intro l
+  induction l with
+  | nil => intro k h; simp [reinsertAux] at h
+  | cons j rest ih =>
+    intro k h
+    unfold reinsertAux at h
+    split at h
+    · rcases List.mem_cons.mp h with h | h
+      · exact Or.inl h
+      · exact Or.inr (List.dropLast_subset _ h)
+    · rcases List.mem_cons.mp h with h | h
+      · right; simp [h]
+      · rcases ih k h with h | h
+        · exact Or.inl h
+        · right; simp [h]
+
+theorem nmInit_sind (f : List α → α) (P : NMP α) (bounds : List (α × α)) (verts : List (List α)) :
+    SindOk verts.length (nmInit f P bounds verts) := by
+  refine ⟨by simp [nmInit, argsort_length], fun j hj => ?_⟩
+  have := (argsort_mem _ j).mp hj
+  simpa using this
+
+theorem nmReplace_sind (f : List α → α) (P : NMP α) (bounds : List (α × α)) (N : Nat) (s : NM α)
+    (v : List α) (fac : α) (hN : s.verts.length = N) (h1N : 1 ≤ N) (h : SindOk N s) :
+    SindOk N (nmReplace f P bounds s v fac) := by
+  obtain ⟨h1, h2⟩ := h
+  refine ⟨by simp [nmReplace, reinsert, reinsertAux_length, h1], fun j hj => ?_⟩
+  simp only [nmReplace, reinsert] at hj
+  rcases reinsertAux_mem _ _ _ _ hj with hw | hw
+  · rw [hw, hN]; exact h2 _ (getD_mem (by omega))
+  · exact h2 _ hw
+
+theorem shrinkResort_length (fval : List α) (sind : List Nat) :
+    (shrinkResort fval sind).length = sind.length := by
+  simp [shrinkResort, argsort_length]
+
+theorem shrinkResort_mem (fval : List α) (sind : List Nat) (j : Nat) (hj : j ∈ shrinkResort fval sind) :
+    j ∈ sind := by
+  simp only [shrinkResort, List.mem_map] at hj
+  obtain ⟨k, hk, rfl⟩ := hj
+  have := (argsort_mem _ k).mp hk
+  exact getD_mem (by simpa using this)
+
+theorem nmShrink_sind (f : List α → α) (P : NMP α) (bounds : List (α × α)) (N : Nat) (s : NM α)
+    (h1N : 1 ≤ N) (h : SindOk N s) : SindOk N (nmShrink f P bounds s) := by
+  obtain ⟨h1, h2⟩ := h
+  refine ⟨by simp [nmShrink, nmShrinkWith, shrinkResort_length, h1], fun j hj => ?_⟩
+  exact h2 _ (shrinkResort_mem _ _ j hj)
+
+theorem nmIter_sind (f : List α → α) (P : NMP α) (bounds : List (α × α)) (N : Nat) (s : NM α)
+    (hN : s.verts.length = N) (h1N : 1 ≤ N) (h : SindOk N s) : SindOk N (nmIter f P bounds s) := by
+  unfold nmIter
+  split
+  · exact nmReplace_sind f P bounds N s _ _ hN h1N h
+  · exact nmShrink_sind f P bounds N s h1N h
+
+theorem nmLoop_gen (f : List α → α) (P : NMP α) (bounds : List (α × α)) (N maxIter : Nat) (h1N : 1 ≤ N) :
+    ∀ (fuel : Nat) (s : NM α), NMOk f P bounds N s → SindOk N s →
+      NMOk f P bounds N (nmLoop f P bounds maxIter fuel s).1 ∧
+      SindOk N (nmLoop f P bounds maxIter fuel s).1 := by
+  intro fuel
+  induction fuel with
+  | zero => intro s h1 h2; exact ⟨h1, h2⟩
+  | succ fuel ih =>
+    intro s h1 h2
+    unfold nmLoop
+    simp only
+    split
+    · exact ⟨h1, h2⟩
+    · exact ih _ (nmIter_ok f P bounds N s h1) (nmIter_sind f P bounds N s h1.2 h1N h2)
+
+theorem SindOk.head_lt {N : Nat} {s : NM α} (h : SindOk N s) (h1N : 1 ≤ N) : s.sind.getD 0 0 < N :=
+  h.2 _ (getD_mem (by rw [h.1]; omega))
+
+end generic
+section field
+variable {K : Type} [Field K] [LinearOrder K] [IsStrictOrderedRing K]
+
+/-- `f_val[sort_ind[0]]` (the negated objective at the vertex reported as best) -/
+def bestVal (s : NM K) : K := s.fval.getD (s.sind.getD 0 0) 0
+
+theorem vadd_smul_vsub_self (σ : K) : ∀ v : List K, vadd v (smul σ (vsub v v)) = v := by
+  intro v
+  induction v with
+  | nil => rfl
+  | cons a t ih =>
+    simp only [vadd, vsub, smul, List.zipWith_cons_cons, List.map_cons] at ih ⊢
+    rw [ih]; simp
+
+theorem reinsertAux_head_cons (p : Nat → Bool) (w j : Nat) (rest : List Nat) :
+    (reinsertAux p w (j :: rest)).getD 0 0 = if p j then w else j := by
+  unfold reinsertAux; split <;> simp
+
+/-- accepting a point never makes the reported best value worse, provided the worst and the best
+    slot are different rows -/
+theorem nmReplace_best (f : List K → K) (P : NMP K) (bounds : List (K × K)) (s : NM K) (v : List K) (fac : K)
+    (hwb : s.sind.getD (s.verts.length - 1) 0 ≠ s.sind.getD 0 0) :
+    bestVal (nmReplace f P bounds s v fac) ≤ bestVal s := by
+  unfold bestVal nmReplace reinsert
+  simp only
+  cases hs : s.sind with
+  | nil => rw [hs] at hwb; simp at hwb
+  | cons j rest =>
+    rw [hs] at hwb
+    have hj : (j :: rest).getD 0 0 = j := rfl
+    rw [hj] at hwb ⊢
+    rw [reinsertAux_head_cons]
+    have hne := getD_set_ne' s.fval _ j (negF f P.pinf bounds v) 0 hwb
+    split
+    · next hp =>
+      have := of_decide_eq_true hp
+      rw [hne] at this
+      exact this.le
+    · rw [hne]
+
+theorem shrinkStep_best (F : List K → K) (σ : K) (best : Nat) (vf : List (List K) × List K) (i : Nat)
+    (h : vf.2 = vf.1.map F) :
+    (shrinkStep F σ best vf i).2.getD best 0 = vf.2.getD best 0 ∧
+    (shrinkStep F σ best vf i).1.getD best [] = vf.1.getD best [] := by
+  unfold shrinkStep
+  simp only
+  by_cases hi : i = best
+  · subst hi
+    rw [vadd_smul_vsub_self]
+    by_cases hl : i < vf.1.length
+    · have hl2 : i < vf.2.length := by rw [h]; simpa using hl
+      rw [getD_set_self' _ _ _ _ hl2, getD_set_self' _ _ _ _ hl]
+      refine ⟨?_, rfl⟩
+      rw [h, getD_map_of_lt F _ _ _ [] hl]
+    · have hl2 : vf.2.length ≤ i := by rw [h]; simpa using hl
+      rw [List.set_eq_of_length_le hl2, List.set_eq_of_length_le (not_lt.mp hl)]
+      exact ⟨rfl, rfl⟩
+  · exact ⟨getD_set_ne' _ _ _ _ _ hi, getD_set_ne' _ _ _ _ _ hi⟩
+
+theorem shrinkFold_best (F : List K → K) (σ : K) (best : Nat) :
+    ∀ (idx : List Nat) (vf : List (List K) × List K), vf.2 = vf.1.map F →
+      (idx.foldl (shrinkStep F σ best) vf).2.getD best 0 = vf.2.getD best 0 ∧
+      (idx.foldl (shrinkStep F σ best) vf).1.getD best [] = vf.1.getD best [] := by
+  intro idx
+  induction idx with
+  | nil => intro vf _; exact ⟨rfl, rfl⟩
+  | cons i rest ih =>
+    intro vf h
+    simp only [List.foldl_cons]
+    have h1 := shrinkStep_ok F σ best vf i h
+    have h2 := shrinkStep_best F σ best vf i h
+    have := ih _ h1.1
+    exact ⟨by rw [this.1, h2.1], by rw [this.2, h2.2]⟩
+
+/-! ### `argsort` puts a minimiser first -/
+
+theorem insIdx_headMin (vals : List K) (i : Nat) : ∀ l : List Nat,
+    (∀ j ∈ l, vals.getD (l.getD 0 0) 0 ≤ vals.getD j 0) →
+    ∀ j ∈ insIdx vals i l, vals.getD ((insIdx vals i l).getD 0 0) 0 ≤ vals.getD j 0 := by
+  intro l
+  cases l with
+  | nil => intro _ j hj; simp [insIdx] at hj ⊢; rw [hj]
+  | cons a rest =>
+    intro h j hj
+    unfold insIdx at hj ⊢
+    have ha : (a :: rest).getD 0 0 = a := rfl
+    rw [ha] at h
+    split at hj
+    · next hlt =>
+      rw [if_pos hlt]
+      simp only [List.getD_cons_zero]
+      rcases List.mem_cons.mp hj with hj | hj
+      · rw [hj]
+      · exact le_trans hlt.le (h j hj)
+    · next hlt =>
+      rw [if_neg hlt]
+      simp only [List.getD_cons_zero]
+      rcases List.mem_cons.mp hj with hj | hj
+      · rw [hj]
+      · rcases (insIdx_mem vals i rest j).mp hj with hj | hj
+        · rw [hj]; exact not_lt.mp hlt
+        · exact h j (List.mem_cons_of_mem _ hj)
+
+theorem argsort_head_min (vals : List K) (j : Nat) (hj : j < vals.length) :
+    vals.getD ((argsort vals).getD 0 0) 0 ≤ vals.getD j 0 := by
+  have key : ∀ m, ∀ k ∈ (List.range m).foldl (fun acc i => insIdx vals i acc) [],
+      vals.getD (((List.range m).foldl (fun acc i => insIdx vals i acc) []).getD 0 0) 0 ≤ vals.getD k 0 := by
+    intro m
+    induction m with
+    | zero => intro k hk; simp at hk
+    | succ m ih =>
+      rw [List.range_succ, List.foldl_append]
+      simp only [List.foldl_cons, List.foldl_nil]
+      exact insIdx_headMin vals m _ ih
+  exact key vals.length j ((argsort_mem vals j).mpr hj)
+
+/-- the shrink step leaves the old best vertex and its value untouched, and the stable re-sort puts
+    a minimiser of the new `f_val` in front: the reported best value does not get worse -/
+theorem nmShrink_best (f : List K → K) (P : NMP K) (bounds : List (K × K)) (N : Nat) (s : NM K)
+    (h : s.fval = s.verts.map (negF f P.pinf bounds)) (h1N : 1 ≤ N) (hs : SindOk N s) :
+    bestVal (nmShrink f P bounds s) ≤ bestVal s := by
+  have hfold := shrinkFold_best (negF f P.pinf bounds) P.σ (s.sind.getD 0 0) (s.sind.drop 1) (s.verts, s.fval) h
+  unfold bestVal nmShrink nmShrinkWith shrinkResort
+  simp only
+  generalize ((s.sind.drop 1).foldl (shrinkStep (negF f P.pinf bounds) P.σ (s.sind.getD 0 0)) (s.verts, s.fval)).2
+    = fv at hfold ⊢
+  have hlen : (s.sind.map fun i => fv.getD i 0).length = s.sind.length := by simp
+  have h0 : 0 < (s.sind.map fun i => fv.getD i 0).length := by rw [hlen, hs.1]; omega
+  have hmin := argsort_head_min (s.sind.map fun i => fv.getD i 0) 0 h0
+  have hp0 : (argsort (s.sind.map fun i => fv.getD i 0)).getD 0 0 < s.sind.length := by
+    have hm : (argsort (s.sind.map fun i => fv.getD i 0)).getD 0 0 ∈ argsort (s.sind.map fun i => fv.getD i 0) :=
+      getD_mem (by rw [argsort_length]; exact h0)
+    have := (argsort_mem _ _).mp hm
+    simpa using this
+  have hl0 : 0 < (argsort (s.sind.map fun i => fv.getD i 0)).length := by rw [argsort_length]; exact h0
+  rw [getD_map_of_lt _ _ _ _ 0 hl0]
+  rw [getD_map_of_lt _ _ _ _ 0 hp0, getD_map_of_lt _ _ _ _ 0 (by rw [hs.1]; omega)] at hmin
+  rw [← hfold.1]
+  exact hmin
+
+theorem nmIter_best (f : List K → K) (P : NMP K) (bounds : List (K × K)) (N : Nat) (s : NM K)
+    (h : s.fval = s.verts.map (negF f P.pinf bounds)) (h1N : 1 ≤ N) (hs : SindOk N s)
+    (hwb : s.sind.getD (s.verts.length - 1) 0 ≠ s.sind.getD 0 0) :
+    bestVal (nmIter f P bounds s) ≤ bestVal s := by
+  unfold nmIter
+  split
+  · exact nmReplace_best f P bounds s _ _ hwb
+  · exact nmShrink_best f P bounds N s h h1N hs
+
+/-! ### without a shrink, `sort_ind` stays a permutation that sorts `f_val` -/
+
+theorem reinsertAux_sorted (p : Nat → Bool) (w : Nat) (v : Nat → K)
+    (hpw : p w = false) (hp : ∀ j, p j = true ↔ v w < v j) :
+    ∀ l : List Nat, List.Pairwise (fun a b => v a ≤ v b) l →
+      (reinsertAux p w (l ++ [w])).Perm (l ++ [w]) ∧
+      List.Pairwise (fun a b => v a ≤ v b) (reinsertAux p w (l ++ [w])) := by
+  intro l
+  induction l with
+  | nil => intro _; simp [reinsertAux, hpw]
+  | cons j t ih =>
+    intro hs
+    rw [List.pairwise_cons] at hs
+    obtain ⟨hj, ht⟩ := hs
+    rw [List.cons_append]
+    unfold reinsertAux
+    by_cases hpj : p j = true
+    · rw [if_pos hpj]
+      have hd : (j :: (t ++ [w])).dropLast = j :: t := by simp [List.dropLast_cons_of_ne_nil]
+      rw [hd]
+      refine ⟨(List.perm_append_singleton w (j :: t)).symm, ?_⟩
+      rw [List.pairwise_cons]
+      have hlt := (hp j).mp hpj
+      refine ⟨fun a ha => ?_, List.pairwise_cons.mpr ⟨hj, ht⟩⟩
+      rcases List.mem_cons.mp ha with ha | ha
+      · rw [ha]; exact hlt.le
+      · exact le_trans hlt.le (hj a ha)
+    · rw [if_neg hpj]
+      obtain ⟨ih1, ih2⟩ := ih ht
+      refine ⟨List.Perm.cons j ih1, ?_⟩
+      rw [List.pairwise_cons]
+      refine ⟨fun a ha => ?_, ih2⟩
+      have := (ih1.mem_iff).mp ha
+      rcases List.mem_append.mp this with h | h
+      · exact hj a h
+      · have : a = w := by simpa using h
+        rw [this]
+        have hn : ¬ v w < v j := fun h => hpj ((hp j).mpr h)
+        exact not_lt.mp hn
+
+theorem getD_last (l : List Nat) (h : l ≠ []) : l.getD (l.length - 1) 0 = l.getLast h := by
+  rw [List.getLast_eq_getElem]
+  have : l.length - 1 < l.length := by
+    have := List.length_pos_iff.mpr h; omega
+  simp [List.getD_eq_getElem?_getD, List.getElem?_eq_getElem this]
+
+/-- **no shrink, no damage.** If `sort_ind` is duplicate-free and sorts `f_val`, accepting a
+    reflection / expansion / contraction point leaves it a permutation of itself that sorts the
+    updated `f_val`. (Only the shrink branch breaks this.) -/
+theorem nmReplace_keeps_sorting (f : List K → K) (P : NMP K) (bounds : List (K × K)) (N : Nat) (s : NM K)
+    (v : List K) (fac : K) (hN : s.verts.length = N) (h1N : 1 ≤ N) (hs : SindOk N s)
+    (hnd : s.sind.Nodup)
+    (hsorted : List.Pairwise (fun a b => s.fval.getD a 0 ≤ s.fval.getD b 0) s.sind) :
+    (nmReplace f P bounds s v fac).sind.Perm s.sind ∧
+    List.Pairwise (fun a b => (nmReplace f P bounds s v fac).fval.getD a 0 ≤ (nmReplace f P bounds s v fac).fval.getD b 0)
+      (nmReplace f P bounds s v fac).sind := by
+  have hne : s.sind ≠ [] := by
+    intro h; have := hs.1; rw [h] at this; simp at this; omega
+  have hlast : s.sind.getD (s.verts.length - 1) 0 = s.sind.getLast hne := by
+    rw [hN, ← hs.1]; exact getD_last _ hne
+  have hsplit := List.dropLast_concat_getLast hne
+  unfold nmReplace reinsert
+  simp only
+  rw [hlast]
+  generalize s.sind.getLast hne = w at hsplit
+  generalize hl : s.sind.dropLast = l at hsplit
+  rw [← hsplit] at hnd hsorted ⊢
+  have hwl : w ∉ l := by
+    intro hm
+    have := List.nodup_append.mp hnd
+    exact this.2.2 w hm w (by simp) rfl
+  rw [List.pairwise_append] at hsorted
+  obtain ⟨hsl, _, _⟩ := hsorted
+  have hv : ∀ a ∈ l, (s.fval.set w (negF f P.pinf bounds v)).getD a 0 = s.fval.getD a 0 := by
+    intro a ha
+    exact getD_set_ne' _ _ _ _ _ (fun h => hwl (h ▸ ha))
+  have hsl' : List.Pairwise (fun a b => (s.fval.set w (negF f P.pinf bounds v)).getD a 0
+      ≤ (s.fval.set w (negF f P.pinf bounds v)).getD b 0) l := by
+    refine List.Pairwise.imp_of_mem ?_ hsl
+    intro a b ha hb hab
+    rw [hv a ha, hv b hb]; exact hab
+  exact reinsertAux_sorted _ w (fun j => (s.fval.set w (negF f P.pinf bounds v)).getD j 0)
+    (by simp) (fun j => by simp) l hsl'
+
+theorem insIdx_sorted_nodup (vals : List K) (i : Nat) : ∀ l : List Nat,
+    List.Pairwise (fun a b => vals.getD a 0 ≤ vals.getD b 0) l → l.Nodup → i ∉ l →
+    List.Pairwise (fun a b => vals.getD a 0 ≤ vals.getD b 0) (insIdx vals i l) ∧ (insIdx vals i l).Nodup := by
+  intro l
+  induction l with
+  | nil => intro _ _ _; simp [insIdx]
+  | cons j rest ih =>
+    intro hs hn hi
+    rw [List.pairwise_cons] at hs
+    rw [List.nodup_cons] at hn
+    unfold insIdx
+    split
+    · next hlt =>
+      refine ⟨List.pairwise_cons.mpr ⟨fun a ha => ?_, List.pairwise_cons.mpr hs⟩,
+        List.nodup_cons.mpr ⟨hi, List.nodup_cons.mpr hn⟩⟩
+      rcases List.mem_cons.mp ha with ha | ha
+      · rw [ha]; exact hlt.le
+      · exact le_trans hlt.le (hs.1 a ha)
+    · next hlt =>
+      have hi' : i ∉ rest := fun h => hi (List.mem_cons_of_mem _ h)
+      obtain ⟨i1, i2⟩ := ih hs.2 hn.2 hi'
+      refine ⟨List.pairwise_cons.mpr ⟨fun a ha => ?_, i1⟩, List.nodup_cons.mpr ⟨?_, i2⟩⟩
+      · rcases (insIdx_mem vals i rest a).mp ha with ha | ha
+        · rw [ha]; exact not_lt.mp hlt
+        · exact hs.1 a ha
+      · intro hm
+        rcases (insIdx_mem vals i rest j).mp hm with hm | hm
+        · exact hi (by rw [hm]; simp)
+        · exact hn.1 hm
+
+/-- the initial `argsort` is a duplicate-free list that sorts `vals` -/
+theorem argsort_sorted_nodup (vals : List K) :
+    List.Pairwise (fun a b => vals.getD a 0 ≤ vals.getD b 0) (argsort vals) ∧ (argsort vals).Nodup := by
+  have key : ∀ m, List.Pairwise (fun a b => vals.getD a 0 ≤ vals.getD b 0)
+      ((List.range m).foldl (fun acc i => insIdx vals i acc) []) ∧
+      ((List.range m).foldl (fun acc i => insIdx vals i acc) []).Nodup := by
+    intro m
+    induction m with
+    | zero => simp
+    | succ m ih =>
+      rw [List.range_succ, List.foldl_append]
+      simp only [List.foldl_cons, List.foldl_nil]
+      refine insIdx_sorted_nodup vals m _ ih.1 ih.2 ?_
+      intro hm
+      have := ((argsortFold_spec vals m).2 m).mp hm
+      omega
+  exact key vals.length
+
+/-! ### the repaired shrink re-sort keeps `sort_ind` a sorting permutation -/
+
+/-- `sort_ind` is duplicate-free and sorts `f_val` -/
+def SortedPerm (s : NM K) : Prop :=
+  s.sind.Nodup ∧ List.Pairwise (fun a b => s.fval.getD a 0 ≤ s.fval.getD b 0) s.sind
+
+theorem getD_inj_of_nodup (l : List Nat) (h : l.Nodup) (a b : Nat) (ha : a < l.length) (hb : b < l.length)
+    (hab : a ≠ b) : l.getD a 0 ≠ l.getD b 0 := by
+  simp only [List.getD_eq_getElem?_getD, List.getElem?_eq_getElem ha, List.getElem?_eq_getElem hb,
+    Option.getD_some]
+  intro he
+  exact hab ((h.getElem_inj_iff).mp he)
+
+/-- the stable re-sort of the vertex indices: a duplicate-free `sort_ind` stays duplicate-free,
+    and the result sorts the given values (whatever `sort_ind` was before) -/
+theorem shrinkResort_sorted (fv : List K) (sind : List Nat) (hnd : sind.Nodup) :
+    (shrinkResort fv sind).Nodup ∧
+    List.Pairwise (fun a b => fv.getD a 0 ≤ fv.getD b 0) (shrinkResort fv sind) := by
+  unfold shrinkResort
+  obtain ⟨hso, hno⟩ := argsort_sorted_nodup (sind.map fun i => fv.getD i 0)
+  have hmem : ∀ a ∈ argsort (sind.map fun i => fv.getD i 0), a < sind.length := by
+    intro a ha; have := (argsort_mem _ a).mp ha; simpa using this
+  constructor
+  · unfold List.Nodup
+    rw [List.pairwise_map]
+    refine List.Pairwise.imp_of_mem ?_ hno
+    intro a b ha hb hab
+    exact getD_inj_of_nodup sind hnd a b (hmem a ha) (hmem b hb) hab
+  · rw [List.pairwise_map]
+    refine List.Pairwise.imp_of_mem ?_ hso
+    intro a b ha hb hab
+    rw [getD_map_of_lt _ _ _ _ 0 (hmem a ha), getD_map_of_lt _ _ _ _ 0 (hmem b hb)] at hab
+    exact hab
+
+theorem nmShrink_sortedPerm (f : List K → K) (P : NMP K) (bounds : List (K × K)) (s : NM K)
+    (h : SortedPerm s) : SortedPerm (nmShrink f P bounds s) := by
+  unfold SortedPerm nmShrink nmShrinkWith
+  simp only
+  exact shrinkResort_sorted _ _ h.1
+
+theorem nmIter_sortedPerm (f : List K → K) (P : NMP K) (bounds : List (K × K)) (N : Nat) (s : NM K)
+    (hN : s.verts.length = N) (h1N : 1 ≤ N) (hs : SindOk N s) (h : SortedPerm s) :
+    SortedPerm (nmIter f P bounds s) := by
+  unfold nmIter
+  split
+  · next v fac _ =>
+    have := nmReplace_keeps_sorting f P bounds N s v fac hN h1N hs h.1 h.2
+    exact ⟨(this.1.nodup_iff).mpr h.1, this.2⟩
+  · exact nmShrink_sortedPerm f P bounds s h
+
+theorem nmInit_sortedPerm (f : List K → K) (P : NMP K) (bounds : List (K × K)) (verts : List (List K)) :
+    SortedPerm (nmInit f P bounds verts) := by
+  have := argsort_sorted_nodup (verts.map (negF f P.pinf bounds))
+  exact ⟨this.2, this.1⟩
+
+/-- **the loop.** The bookkeeping invariants and "`sort_ind` is a duplicate-free list of valid rows
+    that sorts `f_val`" hold at exit; with `tol_f > 0` the value at `sort_ind[0]` is not worse than at
+    entry. -/
+theorem nmLoop_inv (f : List K → K) (P : NMP K) (bounds : List (K × K)) (N maxIter : Nat)
+    (h1N : 1 ≤ N) (htol : 0 < P.tolf) :
+    ∀ (fuel : Nat) (s : NM K), NMOk f P bounds N s → SindOk N s → SortedPerm s →
+      NMOk f P bounds N (nmLoop f P bounds maxIter fuel s).1 ∧
+      SindOk N (nmLoop f P bounds maxIter fuel s).1 ∧
+      SortedPerm (nmLoop f P bounds maxIter fuel s).1 ∧
+      bestVal (nmLoop f P bounds maxIter fuel s).1 ≤ bestVal s := by
+  intro fuel
+  induction fuel with
+  | zero => intro s h1 h2 h3; exact ⟨h1, h2, h3, le_refl _⟩
+  | succ fuel ih =>
+    intro s h1 h2 h3
+    unfold nmLoop
+    simp only
+    split
+    · exact ⟨h1, h2, h3, le_refl _⟩
+    · next hc =>
+      have hwb : s.sind.getD (s.verts.length - 1) 0 ≠ s.sind.getD 0 0 := by
+        intro heq
+        apply hc
+        simp only [Bool.or_eq_true, decide_eq_true_eq]
+        left; right
+        rw [heq, sub_self]; exact htol
+      have := ih _ (nmIter_ok f P bounds N s h1) (nmIter_sind f P bounds N s h1.2 h1N h2)
+        (nmIter_sortedPerm f P bounds N s h1.2 h1N h2 h3)
+      exact ⟨this.1, this.2.1, this.2.2.1,
+        le_trans this.2.2.2 (nmIter_best f P bounds N s h1.1 h1N h2 hwb)⟩
+
+/-- the loop keeps the sorting permutation for every `tol_f` (no positivity needed) -/
+theorem nmLoop_sortedPerm (f : List K → K) (P : NMP K) (bounds : List (K × K)) (N maxIter : Nat) (h1N : 1 ≤ N) :
+    ∀ (fuel : Nat) (s : NM K), NMOk f P bounds N s → SindOk N s → SortedPerm s →
+      NMOk f P bounds N (nmLoop f P bounds maxIter fuel s).1 ∧
+      SindOk N (nmLoop f P bounds maxIter fuel s).1 ∧
+      SortedPerm (nmLoop f P bounds maxIter fuel s).1 := by
+  intro fuel
+  induction fuel with
+  | zero => intro s h1 h2 h3; exact ⟨h1, h2, h3⟩
+  | succ fuel ih =>
+    intro s h1 h2 h3
+    unfold nmLoop
+    simp only
+    split
+    · exact ⟨h1, h2, h3⟩
+    · exact ih _ (nmIter_ok f P bounds N s h1) (nmIter_sind f P bounds N s h1.2 h1N h2)
+        (nmIter_sortedPerm f P bounds N s h1.2 h1N h2 h3)
+
+/-- a duplicate-free list of `N` numbers below `N` is a permutation of `0..N-1` -/
+theorem perm_range_of_nodup (l : List Nat) (N : Nat) (hl : l.length = N) (hm : ∀ j ∈ l, j < N)
+    (hnd : l.Nodup) : l.Perm (List.range N) := by
+  have hsub : l ⊆ List.range N := fun j hj => List.mem_range.mpr (hm j hj)
+  exact (List.subperm_of_subset hnd hsub).perm_of_length_le (by simp [hl])
+
+/-! ### stability: on ties the earlier entry stays in front -/
+
+theorem insIdx_head_first (vals : List K) (i : Nat) : ∀ l : List Nat, (∀ j ∈ l, j < i) →
+    (∀ j ∈ l, vals.getD (l.getD 0 0) 0 ≤ vals.getD j 0) →
+    (∀ j ∈ l, j < l.getD 0 0 → vals.getD (l.getD 0 0) 0 < vals.getD j 0) →
+    ∀ j ∈ insIdx vals i l, j < (insIdx vals i l).getD 0 0 →
+      vals.getD ((insIdx vals i l).getD 0 0) 0 < vals.getD j 0 := by
+  intro l
+  cases l with
+  | nil => intro _ _ _ j hj hlt; simp [insIdx] at hj hlt; omega
+  | cons a rest =>
+    intro hlt hmin hfirst j hj hjlt
+    unfold insIdx at hj hjlt ⊢
+    have ha : (a :: rest).getD 0 0 = a := rfl
+    rw [ha] at hmin hfirst
+    split at hj
+    · next hc =>
+      rw [if_pos hc] at hjlt ⊢
+      simp only [List.getD_cons_zero] at hjlt ⊢
+      rcases List.mem_cons.mp hj with h | h
+      · omega
+      · exact lt_of_lt_of_le hc (hmin j h)
+    · next hc =>
+      rw [if_neg hc] at hjlt ⊢
+      simp only [List.getD_cons_zero] at hjlt ⊢
+      rcases List.mem_cons.mp hj with h | h
+      · omega
+      · rcases (insIdx_mem vals i rest j).mp h with h | h
+        · have := hlt a (by simp); omega
+        · exact hfirst j (List.mem_cons_of_mem _ h) hjlt
+
+/-- `argsort` puts the FIRST minimiser in front: every earlier position holds a strictly larger value -/
+theorem argsort_head_first (vals : List K) (j : Nat) (hj : j < (argsort vals).getD 0 0)
+    (hjl : j < vals.length) : vals.getD ((argsort vals).getD 0 0) 0 < vals.getD j 0 := by
+  have key : ∀ m,
+      (∀ k ∈ (List.range m).foldl (fun acc i => insIdx vals i acc) [],
+        vals.getD (((List.range m).foldl (fun acc i => insIdx vals i acc) []).getD 0 0) 0 ≤ vals.getD k 0) ∧
+      (∀ k ∈ (List.range m).foldl (fun acc i => insIdx vals i acc) [],
+        k < ((List.range m).foldl (fun acc i => insIdx vals i acc) []).getD 0 0 →
+        vals.getD (((List.range m).foldl (fun acc i => insIdx vals i acc) []).getD 0 0) 0 < vals.getD k 0) := by
+    intro m
+    induction m with
+    | zero => simp
+    | succ m ih =>
+      rw [List.range_succ, List.foldl_append]
+      simp only [List.foldl_cons, List.foldl_nil]
+      have hm : ∀ k ∈ (List.range m).foldl (fun acc i => insIdx vals i acc) [], k < m :=
+        fun k hk => ((argsortFold_spec vals m).2 k).mp hk
+      exact ⟨insIdx_headMin vals m _ ih.1, insIdx_head_first vals m _ hm ih.1 ih.2⟩
+  exact (key vals.length).2 j ((argsort_mem vals j).mpr hjl) hj
+
+/-- **ties keep the old best in front.** If after the shrink no row is strictly better than the old
+    best row, the re-sorted `sort_ind` still starts with it. -/
+theorem shrinkResort_head_of_tie (fv : List K) (sind : List Nat) (hne : sind ≠ [])
+    (h : ∀ j ∈ sind, fv.getD (sind.getD 0 0) 0 ≤ fv.getD j 0) :
+    (shrinkResort fv sind).getD 0 0 = sind.getD 0 0 := by
+  unfold shrinkResort
+  have hlen : 0 < (sind.map fun i => fv.getD i 0).length := by simpa using List.length_pos_iff.mpr hne
+  have hl0 : 0 < (argsort (sind.map fun i => fv.getD i 0)).length := by rw [argsort_length]; exact hlen
+  rw [getD_map_of_lt _ _ _ _ 0 hl0]
+  have hp0m : (argsort (sind.map fun i => fv.getD i 0)).getD 0 0 ∈ argsort (sind.map fun i => fv.getD i 0) :=
+    getD_mem hl0
+  have hp0 : (argsort (sind.map fun i => fv.getD i 0)).getD 0 0 < sind.length := by
+    have := (argsort_mem _ _).mp hp0m; simpa using this
+  by_cases hz : (argsort (sind.map fun i => fv.getD i 0)).getD 0 0 = 0
+  · rw [hz]
+  · exfalso
+    have hpos : 0 < (argsort (sind.map fun i => fv.getD i 0)).getD 0 0 := Nat.pos_of_ne_zero hz
+    have := argsort_head_first (sind.map fun i => fv.getD i 0) 0 hpos hlen
+    rw [getD_map_of_lt _ _ _ _ 0 hp0, getD_map_of_lt _ _ _ _ 0 (List.length_pos_iff.mpr hne)] at this
+    have h2 := h _ (getD_mem hp0)
+    exact absurd this (not_lt.mpr h2)
+
+end field
+
 end QE.C17
